@@ -40,8 +40,8 @@ def len_simp(enc):
         return "rw [flatten_single, Props.C01.enc_length]; simp only [hA]"
     raise KeyError(enc)
 
-def parse(feat):
-    out = subprocess.run([MODEL, "e2e"] + ([feat] if feat != "v3" else []), capture_output=True, text=True, check=True).stdout
+def parse(feat, hist=False):
+    out = subprocess.run([MODEL, "e2e"] + ([feat] if feat != "v3" else []) + (["hist"] if hist else []), capture_output=True, text=True, check=True).stdout
     rows = []
     for l in out.splitlines():
         if not l.startswith("E "):
@@ -51,7 +51,7 @@ def parse(feat):
         holes = [tuple(h.split(":")) for h in d["holes"].split(",") if h]
         comps = d["comp"].split("|") if d["comp"] else []
         tg = [t.split(",") for t in d["targets"].split(";") if t]
-        rows.append(dict(panel=f[1], fam=f[2], op=f[3], n=int(d["len"]), same=d["sameLen"] == "true", nopanic=d["nopanic"] == "true",
+        rows.append(dict(panel=f[1], fam=f[2], op=f[3], hist=d.get("hist", "fresh"), src=d.get("src", "").replace("~", " "), n=int(d["len"]), same=d["sameLen"] == "true", nopanic=d["nopanic"] == "true",
                          holes=[(int(i), int(c, 16), int(n), src) for (i, c, n, src) in holes], comps=comps,
                          targets=[(int(p), e.split(".")[-1], int(a)) for (p, e, a) in tg]))
     return rows
@@ -61,12 +61,20 @@ def plane_of(fam, c):
         return {0x24: 0, 0x26: 1}.get(c)
     return {0x10: 0, 0x13: 1}.get(c)
 
+ZS_USED = set()
+KEYOF = {}
+PER_BYTE = {"epd1in54b", "epd2in7b", "epd7in5"}
+
 def theorem(row, feat, t):
     plane, enc, arg = t
+    if row["panel"] in PER_BYTE:
+        return None, "the driver sends the buffer through a per-byte re-encoding, one transfer per byte: the shape of the program depends on the buffer's spine (not reachable by this method; oracle on sample buffers)"
     fam = row["fam"]
     ns = "Ssd" if fam == "ssd" else "Uc"
-    ops, nbuf = OPS[row["op"]]
+    ops = re.sub(r"\(List\.replicate (\d+) 0\)", lambda m: f"z{m.group(1)}", row["src"])
+    nbuf = 2 if "b1" in ops else 1
     n = row["n"]
+    zs = sorted(set(int(x) for x in re.findall(r"\bz(\d+)\b", ops)) | {n})
     holes = row["holes"]
     cands = [(i, c, ln) for (i, c, ln, _) in holes if plane_of(fam, c) == plane]
     if any(src == "?" for (_, _, _, src) in holes):
@@ -76,11 +84,11 @@ def theorem(row, feat, t):
     kt, ct, lt = cands[-1]
     if lt != enc_len(enc, n):
         return None, f"data block length {lt} is not the encoded buffer's {enc_len(enc, n)}"
-    name = f"{row['panel']}_{row['op']}_plane{plane}" + ("" if feat == "v3" else f"_{feat}")
+    name = f"{row['panel']}_{row['op']}" + ("" if row["hist"] == "fresh" else f"_after_{row['hist']}") + f"_plane{plane}" + ("" if feat == "v3" else f"_{feat}")
     fe = "{}" if feat == "v3" else "{ v2 := true }"
     P = f"(Drivers.{camel(row['panel'])}.panel {fe})"
     bufs = "(b0 : Bytes) (h0 : b0.length = %d)" % n + (" (b1 : Bytes) (h1 : b1.length = %d)" % n if nbuf == 2 else "")
-    ops0 = ops.replace("b0", f"(List.replicate {n} 0)").replace("b1", f"(List.replicate {n} 0)")
+    ops0 = ops.replace("b0", f"z{n}").replace("b1", f"z{n}")
     barg = f"b{arg}"
     hA = f"h{arg}"
     encx = f"(Spec.Enc.{enc}.apply {barg})"
@@ -93,8 +101,9 @@ def theorem(row, feat, t):
     pfx = prog_form(enc, barg)
     # ShapesEq through the holes
     hyps = "h0, h1" if nbuf == 2 else "h0"
+    zl = ", ".join(f"z{k}_len" for k in zs)
     NORM = (f"(by first | (simp only [Panel.blocks, Panel.progSeq, Panel.noPanic, Drivers.{camel(row['panel'])}.panel, driver_simp, "
-            f"Option.getD, List.length_replicate, {hyps}]; rfl) | rfl)")
+            f"Option.getD, {zl}, {hyps}]; rfl) | rfl)")
     sh = []
     prev = -1
     for (i, c, ln, src) in holes:
@@ -102,7 +111,7 @@ def theorem(row, feat, t):
         ok = "Or.inl rfl" if c in (0x24, 0x10) else "Or.inr rfl"
         sa, se = src.split("/")
         dx = f"(List.flatten [{prog_form(se, 'b' + sa)}])"
-        dy = f"(List.flatten [{prog_form(se, f'(List.replicate {n} 0)')}])"
+        dy = f"(List.flatten [{prog_form(se, f'z{n}')}])"
         if fam == "ssd":
             lp = len_simp(se).replace("hA", f"h{sa}")
             sh.append(f"    refine Ssd.shapesEq_hole _ _ {rel} {c} ({ok}) {NORM} ⟨{dx}, {dy}, {NORM}, {NORM}, ?_⟩ ?_")
@@ -117,9 +126,11 @@ def theorem(row, feat, t):
     L = []
     L.append("set_option maxRecDepth 1000000 in")
     if fam == "ssd":
-        xs, xe, ys, ye, stride, rows = map(int, row["comps"][[h[0] for h in holes].index(kt)].split(","))
-        if xs != 0 or ys != 0 or xe < xs or ye < ys:
-            return None, f"window at the data block is not anchored at the RAM origin (xs={xs}, ys={ys}, xe={xe}, ye={ye})"
+        cf = row["comps"][[h[0] for h in holes].index(kt)].split(",")
+        xs, xe, ys, ye, stride, rows = map(int, cf[:6])
+        if cf[6] != "true" or xs != 0 or ys != 0:
+            return None, (f"the controller is not ready for a full frame at the data block: window x {xs}..{xe} (bytes), y {ys}..{ye}, "
+                          f"ready={cf[6]} (window not the panel's / counter not at its origin / Y-decrement addressing)")
         wb = xe + 1
         L.append(f"theorem {name} {bufs} :")
         L.append(f"    {P}.noPanic {ops} = true ∧")
@@ -139,6 +150,9 @@ def theorem(row, feat, t):
         L.append(f"  rw [show {P}.ctrl = .ssd ({P}.ctrl.ssd!) from rfl, Ctrl.run_ssd]")
         L.append(f"  simpa [Ctrl.plane, Ssd.planeOf, Ssd.planeOfCmd, flatten_single] using this")
     else:
+        cf = row["comps"][[h[0] for h in holes].index(kt)].split(",")
+        if cf[2] != "true":
+            return None, "the controller is asleep or in partial mode when the data block arrives"
         L.append(f"theorem {name} {bufs} :")
         L.append(f"    {P}.noPanic {ops} = true ∧")
         L.append(f"    (Ctrl.plane (Ctrl.run {P}.ctrl ({P}.blocks {ops})) {plane}).toList = {encx} := by")
@@ -149,14 +163,130 @@ def theorem(row, feat, t):
         L.append(f"  have hlen : (List.flatten [{pfx}]).length = {lt} := by")
         L.append(f"    {len_simp(enc).replace('hA', hA)}")
         L.append(f"  have hsz : (Uc.planeU (Uc.planeOfCmd {ct}) ({P}.ctrl.uc!)).size = {lt} := by decide +kernel")
-        L.append(f"  have main := Uc.uc_e2e _ _ hs ({P}.ctrl.uc!) (({P}.ctrl.uc!).withData #[] #[] []) (Uc.withData_ctlEq ..) {kt} {ct} _ hk")
+        L.append(f"  have main := Uc.uc_e2e_skip _ _ hs ({P}.ctrl.uc!) (({P}.ctrl.uc!).withData #[] #[] []) (Uc.withData_ctlEq ..) {kt} {ct} _ hk")
         L.append(f"    ({okc}) (by rw [hlen, hsz]) (by decide +kernel) (by decide +kernel)")
         L.append(f"  rw [show {P}.ctrl = .uc ({P}.ctrl.uc!) from rfl, Ctrl.run_uc]")
         if pfx != encx:
             L.append(f"  have he : {encx} = {pfx} := by simp [Spec.Enc.apply, {hA}]")
             L.append(f"  rw [he]")
         L.append(f"  simpa [Ctrl.plane, Uc.planeU, Uc.planeOfCmd, flatten_single] using main")
+    ZS_USED.update(zs)
     return name, "\n".join(L) + "\n"
+
+# ---------------------------------------------------------------------------------------------
+# from-any-state instances (`--any`): `update_frame` alone, from ANY controller state satisfying
+# the stated invariant (awake, entry mode 3 / not in partial mode, the panel's geometry)
+
+def parse_any(feat):
+    out = subprocess.run([MODEL, "e2eany"] + ([feat] if feat != "v3" else []), capture_output=True, text=True, check=True).stdout
+    rows = []
+    for l in out.splitlines():
+        if not l.startswith("A "):
+            continue
+        f = l.split(" ")
+        d = dict(x.split("=", 1) for x in f[4:])
+        holes = [tuple(h.split(":")) for h in d["holes"].split(",") if h]
+        rows.append(dict(panel=f[1], fam=f[2], op=f[3], d=d["d"], n=int(d["len"]), same=d["sameLen"] == "true", nopanic=d["nopanic"] == "true",
+                         holes=[(int(i), int(c, 16), int(n), src) for (i, c, n, src) in holes], comps=d["comp"].split("|") if d["comp"] else [],
+                         targets=[(int(p), e.split(".")[-1], int(a)) for (p, e, a) in [t.split(",") for t in d["targets"].split(";") if t]]))
+    return rows
+
+def theorem_any(row, feat, t):
+    plane, enc, arg = t
+    if row["panel"] in PER_BYTE:
+        return None, "the driver sends the buffer through a per-byte re-encoding, one transfer per byte: the shape of the program depends on the buffer's spine (not reachable by this method; oracle on sample buffers)"
+    fam = row["fam"]
+    n = row["n"]
+    holes = row["holes"]
+    cands = [(i, c, ln) for (i, c, ln, _) in holes if plane_of(fam, c) == plane]
+    if not cands or not row["same"] or not row["nopanic"] or any(src == "?" for (_, _, _, src) in holes):
+        return None, "no recognisable data block for the target plane"
+    kt, ct, lt = cands[-1]
+    if lt != enc_len(enc, n):
+        return None, f"data block length {lt} is not the encoded buffer's {enc_len(enc, n)}"
+    fe = "{}" if feat == "v3" else "{ v2 := true }"
+    P = f"(Drivers.{camel(row['panel'])}.panel {fe})"
+    r, o, pf = row["d"].split(",")
+    dvars = "(bg : Nat) (sm : UInt8) (od : List UInt8)"
+    D = f"{{ bg := bg, refresh := .{r}, isOn := {o}, partialFlag := {pf}, sleepMode := sm, oldData := od }}"
+    dtag = f"_{r}_{'on' if o == 'true' else 'off'}_{'pf' if pf == 'true' else 'nopf'}"
+    split = "  (\n"
+    name = f"{row['panel']}_upd_from_any_state{dtag}_plane{plane}" + ("" if feat == "v3" else "_v2")
+    prog = f"(({P}.prog {D} (.upd b0)).getD [.panic])"
+    blocks = f"(blocksOf {prog})"
+    encx = f"(Spec.Enc.{enc}.apply b0)"
+    def prog_form(e, b):
+        if e == "lo":
+            return f"({b}.take {n // 2})"
+        if e == "hi":
+            return f"({b}.drop {n // 2})"
+        return f"(Spec.Enc.{e}.apply {b})"
+    pfx = prog_form(enc, "b0")
+    SIMP = f"simp only [Drivers.{camel(row['panel'])}.panel, driver_simp, Option.getD, h0]"
+    NORM = f"(by first | ({SIMP}; rfl) | rfl)"
+    okc = "Or.inl rfl" if ct in (0x24, 0x10) else "Or.inr rfl"
+    L = ["set_option maxHeartbeats 1600000 in", "set_option maxRecDepth 1000000 in"]
+    B = []   # the per-case tactic block
+    if fam == "ssd":
+        cf = row["comps"][[h[0] for h in holes].index(kt)].split(",")
+        xs, xe, ys, ye, stride, rows = map(int, cf[:6])
+        if cf[6] != "true" or xs != 0 or ys != 0:
+            return None, ("update_frame does not re-program the RAM window / counter itself: from a state with another window it is not ready "
+                          f"(window x {xs}..{xe}, y {ys}..{ye} at the data block) — history independence holds only as far as no operation changes the window")
+        wb = xe + 1
+        L.append(f"theorem {name} (s : Ssd) (hw : Ssd.WfSize s) (ha : s.asleep = false) (he : s.entry = 3) (hx : s.xPix = {cf[7]})")
+        L.append(f"    (hs : s.stride = {stride}) (hr : s.rows = {rows}) {dvars} (b0 : Bytes) (h0 : b0.length = {n}) :")
+        L.append(f"    {prog}.all (fun a => !a.isPanic) = true ∧")
+        L.append(f"    ∀ (j : Nat) (hj : j < {encx}.length),")
+        L.append(f"      (Ssd.planeOf {plane} ({blocks}.foldl Ssd.feed s))[(j / {wb}) * {stride} + j % {wb}]? = some {encx}[j] := by")
+        L.append(f"  have haddr : Ssd.addr s = ⟨{cf[7]}, {stride}, {rows}, 3, s.xs, s.xe, s.ys, s.ye, s.cx, s.cy, false⟩ := by")
+        L.append(f"    simp only [Ssd.addr, ha, he, hx, hs, hr]")
+        B.append(f"    refine ⟨{NORM}, ?_⟩")
+        B.append(f"    have hk : {blocks}[{kt}]? = some (.c {ct} (List.flatten [{pfx}])) := {NORM}")
+        B.append(f"    have hpost : ({blocks}.drop ({kt} + 1)).all (fun b => !Ssd.touches (Ssd.planeOfCmd {ct}) b) = true := {NORM}")
+        B.append(f"    have hlen : (List.flatten [{pfx}]).length = {lt} := by")
+        B.append(f"      {len_simp(enc).replace('hA', 'h0')}")
+        B.append(f"    have hA : ({blocks}.take {kt}).foldl Ssd.feedA (Ssd.addr s) = ⟨{cf[7]}, {stride}, {rows}, 3, {xs}, {xe}, {ys}, {ye}, {xs}, {ys}, false⟩ := by")
+        B.append(f"      rw [haddr]; first | ({SIMP}; rfl) | rfl")
+        ev = "(by rw [hA]; first | done | rfl)"
+        B.append(f"    have main := Ssd.ssd_from_any_state _ s hw {kt} {ct} _ hk ({okc}) {lt} {wb} {stride} hlen {ev} {ev} {ev} {ev} {ev} hpost")
+        B.append(f"    intro j hj")
+        B.append(f"    have := main j (by rw [flatten_single]; exact hj)")
+        B.append(f"    simpa [Ssd.planeOfCmd, flatten_single] using this)")
+    else:
+        cf = row["comps"][[h[0] for h in holes].index(kt)].split(",")
+        if cf[2] != "true":
+            return None, "not ready even from an awake controller outside partial mode"
+        needp = cf[3] != "true"
+        L.append(f"theorem {name} (u : Uc) (ha : u.asleep = false)" + (" (hp : u.partialOn = false)" if needp else "") + f" (h14 : u.has14 = {cf[4]})")
+        L.append(f"    (hsz : (Uc.planeU {plane} u).size = {lt}) {dvars} (b0 : Bytes) (h0 : b0.length = {n}) :")
+        L.append(f"    {prog}.all (fun a => !a.isPanic) = true ∧")
+        L.append(f"    (Uc.planeU {plane} ({blocks}.foldl Uc.feed u)).toList = {encx} := by")
+        L.append(f"  have hflags : Uc.flags u = ⟨false, {'false' if needp else 'u.partialOn'}, {cf[4]}⟩ := by")
+        L.append(f"    simp only [Uc.flags, ha, h14" + (", hp" if needp else "") + "]")
+        L.append(f"  have hpl : Uc.planeOfCmd {ct} = {plane} := by decide")
+        B.append(f"    refine ⟨{NORM}, ?_⟩")
+        B.append(f"    have hk : {blocks}[{kt}]? = some (.c {ct} (List.flatten [{pfx}])) := {NORM}")
+        B.append(f"    have hpost : ({blocks}.drop ({kt} + 1)).all (fun b => !Uc.touches (Uc.planeOfCmd {ct}) b) = true := {NORM}")
+        B.append(f"    have hlen : (List.flatten [{pfx}]).length = {lt} := by")
+        B.append(f"      {len_simp(enc).replace('hA', 'h0')}")
+        B.append(f"    have main := Uc.uc_from_any_state _ u {kt} {ct} _ hk ({okc}) (by rw [hlen, hpl, hsz]) (by rw [hflags]; first | ({SIMP}; rfl) | rfl) hpost")
+        if pfx != encx:
+            B.append(f"    have he : {encx} = {pfx} := by simp [Spec.Enc.apply, h0]")
+            B.append(f"    rw [he]")
+        B.append(f"    rw [hpl] at main")
+        B.append(f"    simpa [flatten_single] using main)")
+    return name, "\n".join(L) + "\n" + split + "\n".join(B) + "\n"
+
+ANY = "--any" in sys.argv
+
+HIST = "--hist" in sys.argv
+if HIST:
+    OUT = os.path.join(LEAN, "EpdVerif", "Props", "E2EH")
+NS = "E2EH" if HIST else "E2E"
+if ANY:
+    OUT = os.path.join(LEAN, "EpdVerif", "Props", "E2EA")
+    NS = "E2EA"
 
 def main():
     os.makedirs(OUT, exist_ok=True)
@@ -168,41 +298,53 @@ def main():
                 k, _, why = l.strip().partition("  ")
                 dropped[k] = why
     files = {}
+    zfile = {}
     index = []
     for feat in ("v3", "v2"):
-        for row in parse(feat):
+        for row in (parse_any(feat) if ANY else parse(feat, HIST)):
             if feat == "v2" and row["panel"] != "epd2in13_v2":
                 continue
-            if row["op"] not in OPS:
-                continue
             for t in row["targets"]:
-                key = f"{row['panel']}_{row['op']}_plane{t[0]}" + ("" if feat == "v3" else "_v2")
+                if ANY:
+                    key = f"{row['panel']}_upd_from_any_state_{row['d'].replace(',', '_')}_plane{t[0]}" + ("" if feat == "v3" else "_v2")
+                else:
+                    key = f"{row['panel']}_{row['op']}" + ("" if row["hist"] == "fresh" else f"_after_{row['hist']}") + f"_plane{t[0]}" + ("" if feat == "v3" else "_v2")
                 if key in dropped:
                     continue
-                name, txt = theorem(row, feat, t)
+                ZS_USED.clear()
+                name, txt = (theorem_any if ANY else theorem)(row, feat, t)
                 if name is None:
                     dropped[key] = txt
                     continue
+                KEYOF[name] = key
                 files.setdefault(row["panel"], []).append((name, txt))
+                zfile.setdefault(row["panel"], set()).update(ZS_USED)
                 index.append(name)
     mods = []
+    CH = 5
     for panel, ths in sorted(files.items()):
-        mod = camel(panel)
-        mods.append(mod)
-        with open(os.path.join(OUT, mod + ".lean"), "w") as f:
-            f.write("-- GENERATED by tools/gen_e2e.py — do not edit\nimport EpdVerif.E2E\nimport EpdVerif.Props.C01\n")
-            f.write("/-! end-to-end delivery theorems: every buffer of the panel's size, fresh driver -/\n")
-            f.write("namespace EpdVerif.Props.E2E\nopen EpdVerif\n\n")
-            for name, txt in ths:
-                f.write(txt + "\n")
-            f.write("end EpdVerif.Props.E2E\n")
+        chunks = [ths[i:i + CH] for i in range(0, len(ths), CH)]
+        for ci, chunk in enumerate(chunks):
+            mod = camel(panel) + ("" if len(chunks) == 1 else f"_{ci + 1}")
+            mods.append(mod)
+            with open(os.path.join(OUT, mod + ".lean"), "w") as f:
+                f.write(f"-- GENERATED by tools/gen_e2e.py — do not edit\nimport EpdVerif.E2E\nimport EpdVerif.Drivers.{camel(panel)}\nimport EpdVerif.Props.C01\nimport EpdVerif.Lemmas.SsdAddr\nimport EpdVerif.Lemmas.UcFlags\n")
+                f.write("/-! end-to-end delivery theorems: every buffer of the panel's size, " + ("one unit of history before the update" if HIST else "fresh driver") + " -/\n")
+                f.write(f"namespace EpdVerif.Props.{NS}.{mod}\nopen EpdVerif\n\n")
+                f.write("/-! zero buffers as opaque constants: the elaborator never unfolds them (their length is a\n    lemma), the kernel does when it evaluates the companion run -/\n")
+                for k in sorted(zfile.get(panel, [])):
+                    f.write(f"def z{k} : Bytes := List.replicate {k} 0\ntheorem z{k}_len : z{k}.length = {k} := (List.length_replicate : (List.replicate {k} (0 : UInt8)).length = {k})\nattribute [irreducible] z{k}\n")
+                f.write("\n")
+                for name, txt in chunk:
+                    f.write(txt + "\n")
+                f.write(f"end EpdVerif.Props.{NS}.{mod}\n")
     for fn in os.listdir(OUT):
         if fn.endswith(".lean") and fn[:-5] not in mods:
             os.remove(os.path.join(OUT, fn))
-    with open(os.path.join(LEAN, "EpdVerif", "Props", "E2EAll.lean"), "w") as f:
+    with open(os.path.join(LEAN, "EpdVerif", "Props", f"{NS}All.lean"), "w") as f:
         f.write("-- GENERATED by tools/gen_e2e.py — do not edit\n")
         for m in mods:
-            f.write(f"import EpdVerif.Props.E2E.{m}\n")
+            f.write(f"import EpdVerif.Props.{NS}.{m}\n")
     with open(dropped_path, "w") as f:
         f.write("# end-to-end instances not stated (generator) or rejected by Lean (build), with the reason\n")
         for k, why in sorted(dropped.items()):
@@ -215,10 +357,10 @@ def build_and_drop():
         if it > 0 and "--fresh" in sys.argv:
             sys.argv.remove("--fresh")
         mods, dropped, dropped_path = main()
-        r = subprocess.run(["lake", "build"] + [f"EpdVerif.Props.E2E.{m}" for m in mods], cwd=LEAN, capture_output=True, text=True)
+        r = subprocess.run(["lake", "build"] + [f"EpdVerif.Props.{NS}.{m}" for m in mods], cwd=LEAN, capture_output=True, text=True)
         out = r.stdout + r.stderr
         bad = {}
-        for m in re.finditer(r"error: (EpdVerif/Props/E2E/(\w+)\.lean):(\d+):\d+: ([^\n]*)", out):
+        for m in re.finditer(r"error: (EpdVerif/Props/E2E[HA]?/(\w+)\.lean):(\d+):\d+: ([^\n]*)", out):
             path, mod, line, msg = m.group(1), m.group(2), int(m.group(3)), m.group(4)
             src = open(os.path.join(LEAN, path)).read().splitlines()
             # the theorem the error line belongs to
@@ -228,8 +370,8 @@ def build_and_drop():
                 if mm:
                     name = mm.group(1)
                     break
-            if name and name not in bad:
-                bad[name] = f"rejected by Lean at its line {line}: {msg[:160]}"
+            if name and KEYOF.get(name, name) not in bad:
+                bad[KEYOF.get(name, name)] = f"rejected by Lean at its line {line}: {msg[:160]}"
         if not bad:
             print("build ok" if r.returncode == 0 else out[-3000:])
             return r.returncode
